@@ -1,12 +1,14 @@
 #!/bin/bash
 # Runs the unedited test-suite with each seeded patch applied (scratch worktree), for seeds lacking a passing log.
-for d in /verif/seeded/*/; do
-  L=$(basename $d)
-  if grep -q "testsuite exit=0" $d/testsuite_patched.log 2>/dev/null; then echo "$L already ok"; continue; fi
+# usage: tools_seed_tests.sh [label]   (no label: all seeds, three at a time)
+one() {
+  d=/verif/seeded/$1; L=$1
+  if grep -q "testsuite exit=0" $d/testsuite_patched.log 2>/dev/null; then echo "$L already ok"; return; fi
   WT=/tmp/seedwt_$L
   git -C /repo worktree remove --force $WT 2>/dev/null
-  git -C /repo worktree add -q $WT HEAD && cd $WT && git apply $d/patch.diff || { echo "$L: patch does not apply"; continue; }
+  git -C /repo worktree add -q $WT HEAD && cd $WT && git apply $d/patch.diff || { echo "$L: patch does not apply"; return; }
   /venv/bin/python -m pytest -q -p no:cacheprovider --timeout=900 --deselect tests/test_nonlinear_funs.py::TestGradientNormAdditional::test_2d > $d/testsuite_patched.log 2>&1; echo "testsuite exit=$?" >> $d/testsuite_patched.log
   echo "$L: $(tail -2 $d/testsuite_patched.log | tr '\n' ' ' | cut -c1-160)"
   cd /; git -C /repo worktree remove --force $WT
-done
+}
+if [ -n "$1" ]; then one "$1"; else ls /verif/seeded | xargs -P 3 -I{} $0 {}; fi
